@@ -127,6 +127,19 @@ pub fn probes() -> Vec<Fun<D>> {
             }
         });
         box_once(Ok(cv.1))
+    })
+    .with_update(|cv, f| {
+        let local = 0u8;
+        let addr = &local as *const u8 as usize;
+        let live = crate::alloc::live();
+        ST.with(|s| {
+            let mut s = s.borrow_mut();
+            s.probe_count += 1;
+            if s.probes.len() < s.probe_cap {
+                s.probes.push((addr, live));
+            }
+        });
+        f(cv.1)
     });
     vec![
         ("mark", v(1), mark),
@@ -206,6 +219,9 @@ pub fn run_case(filter: &Filter, vars: &[Val], case: &Value, default_take: u64) 
         Err(e) => return json!({"harness_error": format!("inputs: {e}")}),
     };
     let take = case["take"].as_u64().unwrap_or(default_take);
+    // discard: count outputs but keep only the last one (long loops must not make the
+    // harness itself retain memory proportional to the number of outputs)
+    let discard = case["discard"].as_bool().unwrap_or(false);
     let repeat_inputs = case["repeat_inputs"].as_bool().unwrap_or(false);
     ST.with(|s| {
         let mut s = s.borrow_mut();
@@ -261,6 +277,9 @@ pub fn run_case(filter: &Filter, vars: &[Val], case: &Value, default_take: u64) 
             }
             Some(Ok(y)) => {
                 let (fx, pulled, ticks) = snapshot();
+                if discard {
+                    outs.clear();
+                }
                 outs.push(json!([enc(&y), fx, pulled, ticks]));
                 n += 1;
             }
@@ -290,5 +309,5 @@ pub fn run_case(filter: &Filter, vars: &[Val], case: &Value, default_take: u64) 
         let s = s.borrow();
         (s.fx.clone(), s.pulled, s.ticks)
     });
-    json!({"outs": outs, "end": end, "fx": fx, "pulled": pulled, "ticks": ticks})
+    json!({"outs": outs, "end": end, "fx": fx, "pulled": pulled, "ticks": ticks, "n_outs": n})
 }
